@@ -15,6 +15,8 @@ ANALYSIS-ERROR -- normalisation never guesses):
   E. ``project_namedtuples``  ``p = _P(e1, e2)`` .. ``p.a``     ->  ``p__a = e1; p__b = e2; p = _P(p__a, p__b)`` .. ``p__a``
   H. ``forward_single_cell``  ``box = []`` .. ``box.append(v)`` .. ``box[0]``  ->  .. ``v``  (a local one-element list that nothing else
                            can reach, one append site outside loops, the read later in the append's own block)
+  I. ``properties_to_methods``  ``@property def _p(self): return E`` .. ``self._p``  ->  ``def _p(self): return E`` .. ``self._p()``  (a private,
+                           read-only property nothing else can name: the inliner then reads it through its return expression)
 """
 import ast
 import copy
@@ -1233,6 +1235,15 @@ def properties_to_methods(tree, anchors, foreign):
             fake = copy.copy(fn)
             fake.decorator_list = []
             if _eligible_def(fake) != 'func':
+                continue
+            # a *derived value*: the getter is one ``return <expr>`` (after an optional docstring), the expression nothing that makes
+            # a scope of its own -- it can then stand wherever the attribute was read
+            body = list(fn.body)
+            if body and isinstance(body[0], ast.Expr) and isinstance(body[0].value, ast.Constant) and isinstance(body[0].value.value, str):
+                body = body[1:]
+            if len(body) != 1 or not isinstance(body[0], ast.Return) or body[0].value is None or \
+                    _contains([body[0].value], (ast.Lambda, ast.ListComp, ast.SetComp, ast.DictComp, ast.GeneratorExp, ast.NamedExpr, ast.Await,
+                                                ast.Yield, ast.YieldFrom), stop=()):
                 continue
             uses, ok = [], True
             for n in ast.walk(tree):
